@@ -148,6 +148,8 @@ def monitors (c : Case) (ls : List Line) (n : Nat) : List String :=
       (List.range n).filterMap (fun t =>
         if m.parked t && m.curOp t == "inv.lock" && m.nHold == 0 then
           some s!"thread {t} is blocked in lock() at quiescence although no task holds the mutex (lost unlock)"
+        else if m.parked t && m.curOp t == "inv.lock" && m.heldAtInv t then
+          some s!"thread {t}: lock() by the owner blocked instead of reporting the deadlock error"
         else none)
     else []
   let stv := if c.status == "ok" || c.status == "deadlock" then [] else [s!"run ended with status '{c.status}'"]
